@@ -311,7 +311,7 @@ class Profile:
             cn_region,
             prof,
             neutral_value=prof["neutral"].get("value"),
-            **dict(prof.get("options", {}), **params),
+            **dict(prof.get("options") or {}, **params),
         )
 
     @staticmethod
